@@ -10,6 +10,8 @@ output equals the spec machine's output for every input history of any length.
 """
 from __future__ import annotations
 
+import os
+
 import time
 import traceback
 
@@ -1999,6 +2001,25 @@ class OpHarness:
         self.disp = disp
         return it, w, cells_env, s, handlers
 
+    def audit_cells(self, h, uid):
+        """the step is proved from ARBITRARY values of the declared cells; a variable of the enclosing scopes that is mutated there and is not a
+        declared cell would stay at its initial value, and the step would be proved for the first notification only (cells.py)"""
+        if not isinstance(h, Closure):
+            return
+        seen = self.__dict__.setdefault("_cells_audited", {})
+        key = id(h.node)
+        if key not in seen:
+            from .cells import shared_cells
+            cells = shared_cells(h)
+            declared = {n.split(".")[0].split("[")[0] for n in self.c.cells} | set(getattr(self.c, "cells_left_alone", None) or ())
+            seen[key] = sorted((n, how) for n, how in cells.items() if n not in declared)
+        if seen[key]:
+            if os.environ.get("RXVC_CELL_AUDIT") == "list":
+                print("CELL-AUDIT", self.c.name, uid, seen[key], flush=True)
+                return
+            raise Unsupported(f"{uid}: state of the enclosing scopes that the contract does not declare as a cell (it would stay at its initial value in the step proof): "
+                              + ", ".join(f"{n} ({how})" for n, how in seen[key]))
+
     def havoc(self, it, ctx, cells_env, s):
         c = self.c
         for n, kind in c.cells.items():
@@ -2078,6 +2099,7 @@ class OpHarness:
         hname = ("on_next", "on_error", "on_completed")[slot]
         uid = f"{c.uid}/{source}.{hname}"
         self.step_uid = uid
+        self.audit_cells(h, uid)
         self.havoc(it, ctx, cells_env, s)
         # effective invariant: done(s) \/ inv  -- after the operator terminated downstream nothing it
         # does is observable (C01), so its cells are unconstrained there; only "no exception
